@@ -194,7 +194,7 @@ def gen_graph(rng, stratified=True, n_evidence=None):
         # a second, mutually recursive relation
         clauses.append(["rule", None, L("d1", ["X"]), [L("f1", ["X"])]])
         clauses.append(["rule", None, L("d1", ["X"]), [L("d0", ["X", "Y"]), L("d1", ["Y"])]])
-        if rng.random() < 0.4:
+        if rng.random() < 0.15 and n == 3 and ne <= 4:
             clauses.append(["rule", rng.choice(PAL), L("d0", ["X", "Y"]), [L("d1", ["X"]), L("d1", ["Y"]), L("dom", ["X"]), L("dom", ["Y"])]])
     else:
         clauses.append(["rule", None, L("d1", ["X"]), [L("d0", ["X", "X"])]])
@@ -219,6 +219,36 @@ def gen_graph(rng, stratified=True, n_evidence=None):
         if not any(x[0][:2] == e[:2] for x in evidence):
             evidence.append([e, rng.random() < 0.5])
     return dict(consts=consts, clauses=clauses, queries=queries, evidence=evidence)
+
+
+def add_tautologies(rng, prog):
+    """append derived atoms that are true (t*) / false (u*) in every world without the builder being able to fold them,
+    and negations of them: exercises literals that never occur in any model of the CNF (absent from the d-DNNF)."""
+    ground_facts = [c[2] for c in prog["clauses"] if c[0] == "fact"]
+    if len(ground_facts) < 2:
+        return prog
+    x, y = rng.sample(ground_facts, 2)
+    X, Y = L(x[0], x[1]), L(y[0], y[1])
+    nX, nY = L(x[0], x[1], True), L(y[0], y[1], True)
+    k = rng.choice([0, 1, 2])
+    cl = prog["clauses"]
+    if k == 0:
+        cl += [["rule", None, L("t0"), [X]], ["rule", None, L("t0"), [nX, Y]], ["rule", None, L("t0"), [nX, nY]]]
+    elif k == 1:
+        cl += [["rule", None, L("t0"), [X, Y]], ["rule", None, L("t0"), [nX]], ["rule", None, L("t0"), [nY]]]
+    else:
+        cl += [["rule", None, L("al"), [X]], ["rule", None, L("t0"), [L("al")]], ["rule", None, L("t0"), [nX, Y]],
+               ["rule", None, L("t0"), [nY, nX]]]
+    cl += [["rule", None, L("s0"), [L("t0", [], True)]]]
+    cl += [["rule", None, L("u0"), [X, L("s0")]]]
+    if rng.random() < 0.5:
+        cl += [["rule", None, L("w0"), [Y, L("u0", [], True)]]]
+        prog["queries"].append(L("w0"))
+    for q in rng.sample(["t0", "s0", "u0"], rng.randint(1, 3)):
+        prog["queries"].append(L(q))
+    if rng.random() < 0.3:
+        prog["evidence"].append([L(rng.choice(["t0", "s0"])), rng.random() < 0.5])
+    return prog
 
 
 # ---------------------------------------------------------------- printing
@@ -274,6 +304,7 @@ def rules_of(prog):
 def features(prog):
     rules = rules_of(prog)
     dep = {}
+    posdep = {}
     negdep = {}
     for heads, body, _p in rules:
         for h in heads:
@@ -281,19 +312,23 @@ def features(prog):
                 dep.setdefault(h[0], set()).add(l[0])
                 if l[2]:
                     negdep.setdefault(h[0], set()).add(l[0])
+                else:
+                    posdep.setdefault(h[0], set()).add(l[0])
 
-    def reach(a, b):
+    def reach(a, b, d=None):
+        d = dep if d is None else d
         seen, st = set(), [a]
         while st:
             x = st.pop()
-            for y in sorted(dep.get(x, ())):
+            for y in sorted(d.get(x, ())):
                 if y == b:
                     return True
                 if y not in seen:
                     seen.add(y)
                     st.append(y)
         return False
-    cyc = sorted(p for p in dep if reach(p, p))
+    # predicates on a cycle of positive edges (cycles through negation are what C02 is about, not 'recursion')
+    cyc = sorted(p for p in posdep if reach(p, p, posdep))
     f = dict(rec=bool(cyc), contra=False, neg_cyclic_in_cycle=False, has_neg=False, has_ad_body=False,
              has_ad=False, prob_rule=False, nonground_query=False, evidence=bool(prog["evidence"]),
              evidence_derived=False, pred_neg_cycle=False, dup_fact=False, extreme_p=False)
@@ -360,7 +395,8 @@ def cyclic_preds(prog):
     for heads, body, _p in rules_of(prog):
         for h in heads:
             for l in body:
-                dep.setdefault(h[0], set()).add(l[0])
+                if not l[2]:
+                    dep.setdefault(h[0], set()).add(l[0])
     out = set()
     for p0 in dep:
         seen, st = set(), [p0]
